@@ -16,6 +16,7 @@ var zzC16Pages = []string{
 	/* 4 */ `<div><p v-for="i in items"><template include="c.vuego"></template></p><s v-once>BBB</s></div>`,
 	/* 5 */ `<div><b v-once>AAA</b><span v-for="i in items"><u v-once>BBB</u></span><template include="d.vuego"></template></div>`,
 	/* 6 */ `<ul><li v-for="i in items"><b v-once EXTRA>AAA</b></li></ul><p v-for="i in items"><template include="e.vuego"></template></p>`,
+	/* 7 */ `<div v-for="i in items"><template v-once EXTRA><script src="AAA"></script><i>EEE</i></template></div>`,
 }
 
 // expected number of occurrences of each marker
@@ -26,6 +27,7 @@ var zzC16Want = []map[string]int{
 	{"AAA": 1},
 	{"CCC": 1, "BBB": 1},
 	{"AAA": 1, "BBB": 1, "DDD": 1},
+	{"AAA": 1, "EEE": 1},
 	{"AAA": 1, "EEE": 1},
 }
 
@@ -50,7 +52,7 @@ func VerifC16_Once() {
 	k := zzChoice("page", len(zzC16Pages))
 	entry := zzChoice("entry", 3)
 	extra := ""
-	if k == 6 {
+	if k >= 6 {
 		extra = zzC16Extras[zzChoice("extra", len(zzC16Extras))]
 	}
 	fsys := zzC16FS(extra)
